@@ -80,6 +80,9 @@ search_st = st.one_of(
     st.builds(lambda u, n: (u * n)[:3000], st.sampled_from(["a", "\xe9", "\xc3\xa9", "q r ", "%", "\xe4\xb8\xad"]), st.sampled_from([300, 400, 1100, 3000])),
     st.lists(st.sampled_from(list("ab +&=%?#;/\\:@\"'<>")) | st.sampled_from(["\xff", "\xc3\xa9", "\xc3", "%41", "%ff", "+", "&amp;"]),
              min_size=1, max_size=8).map("".join),
+    # strings that begin like a Gopher+ request marker and go on ('!' alone IS the marker; '!x' is a search string)
+    st.builds(lambda m, rest: m + rest, st.sampled_from(["!", "!", "!!", "!+", "?", "-", "!$"]),
+              st.sampled_from(["urgent", "important notice", "x", "+INFO", "\xe9t\xe9", "1"])),
 ).filter(lambda s: s == s.strip() and s.encode("latin-1").decode("utf-8", "surrogateescape").strip()
          == s.encode("latin-1").decode("utf-8", "surrogateescape") and s != "")
 
